@@ -132,10 +132,59 @@ fn oracle(seed: u64, n: u64) {
     }
 }
 
+fn sc_hex(x: &<G1 as concordium_base::curve_arithmetic::Curve>::Scalar) -> String { hlib::hex(&ser(x)) }
+
+/// Encryption cases for the in-the-exponent correspondence: prints secret key, amounts,
+/// the randomness the implementation used, and every group element it produced (hex).
+fn encgen(seed: u64, n: u64) {
+    use concordium_base::curve_arithmetic::Curve;
+    let mut r = Rng::new(seed);
+    let mut csprng = StdRng::seed_from_u64(seed ^ 0x5eed);
+    let context = GlobalContext::<G1>::generate(String::from("verif-c12"));
+    println!("{}", json!({"k":"gens","g":hlib::hex(&ser(context.elgamal_generator())),"h":hlib::hex(&ser(context.encryption_in_exponent_generator()))}));
+    for _ in 0..n {
+        let sk = SecretKey::generate(context.elgamal_generator(), &mut csprng);
+        let pk = PublicKey::from(&sk);
+        let x = r.u64_edge();
+        let y = r.u64_edge();
+        let (ex, rx) = et::encrypt_amount(&context, &pk, Amount::from_micro_ccd(x), &mut csprng);
+        let (ey, ry) = et::encrypt_amount(&context, &pk, Amount::from_micro_ccd(y), &mut csprng);
+        let ag = et::aggregate(&ex, &ey);
+        let j = ag.join();
+        let pts = vec![ex.encryptions[0].0, ex.encryptions[0].1, ex.encryptions[1].0, ex.encryptions[1].1,
+                       ag.encryptions[0].0, ag.encryptions[0].1, ag.encryptions[1].0, ag.encryptions[1].1, j.0, j.1];
+        let decs = vec![sk.decrypt(&ag.encryptions[0]).value, sk.decrypt(&ag.encryptions[1]).value, sk.decrypt(&j).value];
+        println!("{}", json!({"k":"enc","sk":sc_hex(&sk.scalar),"x":x.to_string(),"y":y.to_string(),
+            "rand":[sc_hex(rx.randomness[0].as_ref()),sc_hex(rx.randomness[1].as_ref()),sc_hex(ry.randomness[0].as_ref()),sc_hex(ry.randomness[1].as_ref())],
+            "pts":pts.iter().map(|p| hlib::hex(&ser(p))).collect::<Vec<_>>(),
+            "decs":decs.iter().map(|p| hlib::hex(&ser(p))).collect::<Vec<_>>()}));
+        let _ = G1::zero_point();
+    }
+}
+
+/// stdin: one JSON object per line {"pt": hex, "a": hex32, "b": hex32}; checks pt == a*g + b*h.
+fn lincheck() {
+    use concordium_base::curve_arithmetic::Curve;
+    use std::io::BufRead;
+    let context = GlobalContext::<G1>::generate(String::from("verif-c12"));
+    let g = *context.elgamal_generator();
+    let h = *context.encryption_in_exponent_generator();
+    for line in std::io::stdin().lock().lines() {
+        let line = line.unwrap();
+        let v: serde_json::Value = serde_json::from_str(&line).unwrap();
+        let pt: G1 = concordium_base::common::from_bytes(&mut std::io::Cursor::new(hlib::unhex(v["pt"].as_str().unwrap()))).unwrap();
+        let a: <G1 as Curve>::Scalar = concordium_base::common::from_bytes(&mut std::io::Cursor::new(hlib::unhex(v["a"].as_str().unwrap()))).unwrap();
+        let b: <G1 as Curve>::Scalar = concordium_base::common::from_bytes(&mut std::io::Cursor::new(hlib::unhex(v["b"].as_str().unwrap()))).unwrap();
+        let want = g.mul_by_scalar(&a).plus_point(&h.mul_by_scalar(&b));
+        println!("{}", if want == pt { "ok" } else { "MISMATCH" });
+    }
+}
+
 fn main() {
     quiet_panics();
+    if std::env::args().nth(1).as_deref() == Some("lincheck") { lincheck(); return; }
     let a: Vec<String> = std::env::args().collect();
     let seed: u64 = a[2].parse().unwrap();
     let n: u64 = a[3].parse().unwrap();
-    match a[1].as_str() { "chunks" => chunks(seed, n), "oracle" => oracle(seed, n), _ => panic!("mode") }
+    match a[1].as_str() { "chunks" => chunks(seed, n), "oracle" => oracle(seed, n), "encgen" => encgen(seed, n), _ => panic!("mode") }
 }
